@@ -8,7 +8,7 @@ class P(Prop):
     MODULE = "C16"
     THEOREMS = ["C16_direct_any", "C16_evaluator_any", "C16_evaluate_v_any", "C16_nan_harmless", "C16_linear", "C16_spline",
                 "C16_merge", "C16_example"]
-    KERNELS = ["Segment<Poly0>::evaluate", "Poly0::evaluate", "linear::incr_linear", "spline::f_dx", "spline::segment",
+    KERNELS = ["Segment<Poly0>::evaluate", "Segment<IntOfLogPoly4>::evaluate", "Segment<Log<Poly2>>::evaluate", "Segment<IntOfLog<Poly3>>::evaluate", "Segment<Poly3>::evaluate", "Poly0::evaluate", "linear::incr_linear", "spline::f_dx", "spline::segment",
                "spline::f_x0", "spline::f_xn", "&IntOfLogPoly4::add"]
     RULE = ("query histories over ALL of f64 (NaN with several payloads / signs, +-inf at every position) for direct evaluation, "
             "the stateful evaluator (answers and cursor state) and evaluate_v; every constructor / operator on well-formed "
@@ -51,6 +51,11 @@ class P(Prop):
                     x += rng.uniform(0.1, 2.0)
                     ks.append([C.bits(x), C.bits(rng.uniform(-5, 5))])
                 out.append(dict(op=op, knots=ks, meta={"class": "%s/%d knots" % (op, nk)}))
+        for ty in ("IntOfLogPoly4", "Log<Poly2>", "IntOfLog<Poly3>", "Poly3"):
+            es, sg = G.segs(rng, ty, 3, "ints")
+            bad = [C.NAN_BITS, 0xFFF8000000000000, C.bits(-1.0), C.bits(float("-inf")), C.bits(0.0), C.bits(-0.0), C.bits(float("inf")), C.bits(2.0)]
+            out.append(dict(op="pw_eval", ty=ty, segs=sg, xs=bad, libm=True, meta={"class": "pw_eval/undefined_log"}))
+            out.append(dict(op="evaluator", ty=ty, segs=sg, xs=bad, libm=True, meta={"class": "evaluator/undefined_log"}))
         H = 1e308
         for ks in ([(-H, -H), (H, H), (1.5 * H, 0.0)], [(-H, H), (0.0, -H), (H, H)], [(-1.7e308, 1.0), (-1.0, 2.0), (1.7e308, -1.7e308)],
                    [(0.0, 0.0), (1.0, H), (2.0, -H), (3.0, H)]):
@@ -77,7 +82,8 @@ class P(Prop):
         if op in ("pw_add", "pw_sub"):
             return self.c13.coq_term(case, h)
         if op == "pw_eval":
-            return "run_pw_eval [] [] %s %s %s" % (C.kname("Segment<%s>::evaluate" % case["ty"]),
+            return "run_pw_eval %s %s %s %s %s" % (C.ztable(h.get("ln", [])), C.ztable(h.get("exp", [])),
+                                                   C.kname("Segment<%s>::evaluate" % case["ty"]),
                                                    C.zlistlist(case["segs"]), C.zlist(case["xs"]))
         if op == "pw_translate_polyn":
             return self.c15.coq_term(case, h)
